@@ -17,14 +17,16 @@ MANIFEST = {
     "design_ref": "§5 C09",
     "text": ("Lean theorems over the executable registry model (transcription of async_subscribe, _async_do_resubscribe, "
              "async_resubscribe, async_unsubscribe and the *_all variants, requests built from tables generated from "
-             "event_handler.py): c09_history — for EVERY sequence of calls and publisher reactions the trace satisfies the "
-             "judge C09.ok (routing table = publisher-side fold of grants/unsubscribes/losses after every call, granted "
-             "SID+timeout returned, refused renewal falls back unless unreachable, every request valid GENA); registry_mirrors, "
-             "requests_valid (over the generated header tables), unsubscribed_not_routed, refused_renewal_falls_back, "
-             "unreachable_renewal_no_fallback, success_returns_grant. The same C09.ok judges the real handler's traces; the "
-             "model is tied to the code by per-call comparison of requests, result and routing observations."),
-    "note": ("Trusted: Lean kernel + standard axioms; the translator for the header tables; the scripted requester (answers "
-             "without suspending, so gather() in the *_all calls runs the per-SID coroutines in dictionary order); weak "
+             "event_handler.py): c09_history — for EVERY sequence of calls and publisher reactions, with a requester that answers "
+             "at once or suspends (renew-all then sends every renewal before any response is processed), the trace satisfies the "
+             "judge C09.ok (routing table = publisher-side fold of grants/unsubscribes/losses after every call, granted SID+timeout "
+             "returned, per service fresh SUBSCRIBEs = refused renewals, every request valid GENA); registry_mirrors, requests_valid "
+             "and request_tables_pinned (over the generated header tables), unsubscribed_not_routed, refused_renewal_falls_back, "
+             "unreachable_renewal_no_fallback, subscribe_returns_grant, renewal_returns_grant, fallback_adjacent_sequential. The same "
+             "C09.ok judges the real handler's traces; the model is tied to the code by per-call comparison of requests, result and "
+             "routing observations."),
+    "note": ("Trusted: Lean kernel + standard axioms; the translator for the header tables; the scripted requester (two "
+             "behaviours: answers at once / after one trip round the event loop; responses in request order); weak "
              "references not modelled (services kept alive); Python int()/timedelta modelled for ASCII input; a 200 whose "
              "TIMEOUT mentions Second- but is not Second-<digits>/Second-infinite is compared but outside the judge; "
              "correspondence is sampled (exhaustive to a small depth over a reduced alphabet, random beyond)."),
